@@ -80,8 +80,10 @@ def run(model, rep, tier):
         n = assigned.get(a)
         if isinstance(n, ast.Assign):
             v = n.value
-            fresh = isinstance(v, ast.Call) and not any(isinstance(x, ast.Attribute) and isinstance(x.value, ast.Name)
-                                                        and x.value.id == 'self' and x.attr == a for x in ast.walk(v))
+            # nothing the new value is computed from (through the locals of start) reads the attribute being replaced
+            from ..engines import cache as _cache
+            defs, names_of = _cache._deps(st, st.args.args[0].arg)
+            fresh = ('self.' + a) not in _cache._closure(defs, names_of(v))
             rep.ob('start-total', mod, n, 'self.%s = %s' % (a, unparse(v)[:60]), fresh,
                    '' if fresh else 'new value of %s is built from the old one' % a, engine='owner')
     # ---- sign convention of start
@@ -263,10 +265,14 @@ def _trial(fn):
                         iter_ok = unparse(resolve_in_block(inner, inner.iter)) == 'self.siteinteract[%s][:self.Ninteract[%s]]' % (site, site)
                         signs = set()
                         for n in ast.walk(inner):
-                            if isinstance(n, ast.AugAssign) and isinstance(n.value, ast.Constant) and n.value.value == 1:
-                                signs.add(1 if isinstance(n.op, ast.Add) else -1)
+                            if isinstance(n, ast.AugAssign) and isinstance(n.op, (ast.Add, ast.Sub)):
+                                # x += 1, x -= 1, and the same with a signed constant (x += -1 after a helper(step=-1) is written out)
+                                from ..engines.linform import const_value
+                                c = const_value(resolve_in_block(inner, n.value))
+                                if c is not None and abs(c) == 1:
+                                    signs.add(int(c) if isinstance(n.op, ast.Add) else -int(c))
                             if isinstance(n, ast.Assign) and isinstance(n.targets[0], ast.Subscript):
-                                v = n.value
+                                v = resolve_in_block(inner, n.value)
                                 if isinstance(v, ast.Constant) and v.value == 1:
                                     signs.add(1)
                                 elif isinstance(v, ast.UnaryOp) and isinstance(v.op, ast.USub) and isinstance(v.operand, ast.Constant) \
